@@ -62,6 +62,9 @@ type c17In struct {
 	// ChunkStyle 0 plain sizes, 1 a chunk extension on every size line, 2 upper-case hex with leading zeros and a
 	// quoted extension, 3 extensions + trailer fields after the last chunk (announced by a Trailer header)
 	Chunks     []int `json:"chunks,omitempty"`
+	// site: the upload announces Expect: 100-continue (sent without waiting; interim 100 responses are skipped);
+	// generated for bodies within the limit only
+	Expect bool `json:"expect,omitempty"`
 	ChunkStyle int   `json:"chunkstyle,omitempty"`
 	// listener: per site read, header, write, idle (set?, ns) and the header-size limit; Live = through
 	// a Casketfile (timeouts / limits directives) and casket.Start instead of hand-built configs
@@ -736,6 +739,16 @@ func c17GenDeep(r *Rand, tier string) []interface{} {
 			}
 		}
 	}
+	// ---- Expect: 100-continue uploads at the boundary (limit-1, limit), both framings, three consumers: delivered
+	// intact, 200, the pipelined follow-up answered ----
+	for _, lim := range chunkLimits {
+		for consumer := 0; consumer < 3; consumer++ {
+			for _, n := range []int{int(lim) - 1, int(lim)} {
+				out = append(out, &c17In{Kind: "site", Consumer: consumer, Limit: lim, BodyLen: n, Expect: true},
+					&c17In{Kind: "site", Consumer: consumer, Chunked: true, Limit: lim, BodyLen: n, Expect: true, Chunks: []int{(n + 1) / 2, n / 2}, ChunkStyle: n % 4})
+			}
+		}
+	}
 	// ---- every server object of a listener: TLS sites or not, HTTP/2 on/off, QUIC flag on/off ----
 	nServers, nServersLive := 260, 24
 	if tier == "thorough" {
@@ -1105,6 +1118,9 @@ func c17RunSite(in *c17In) Result {
 	body := bodyOf(in.BodyLen)
 	var sb bytes.Buffer
 	fmt.Fprintf(&sb, "POST %s HTTP/1.1\r\nHost: %s\r\nX-Case: %s\r\nContent-Type: application/octet-stream\r\n", target, site.addr, id)
+	if in.Expect {
+		sb.WriteString("Expect: 100-continue\r\n")
+	}
 	if in.Chunked {
 		if in.ChunkStyle == 3 {
 			sb.WriteString("Trailer: X-Sum, X-Note\r\n")
@@ -1127,6 +1143,9 @@ func c17RunSite(in *c17In) Result {
 	br := bufio.NewReader(conn)
 	status, followup := -1, -2
 	r1, err := http.ReadResponse(br, &http.Request{Method: "POST"})
+	for err == nil && r1.StatusCode == 100 { // interim response of an Expect: 100-continue upload
+		r1, err = http.ReadResponse(br, &http.Request{Method: "POST"})
+	}
 	if ne, ok := err.(net.Error); ok && ne.Timeout() {
 		c17Stuck++
 		r := fail("upload was not answered within 10s")
@@ -1193,6 +1212,9 @@ func c17RunSite(in *c17In) Result {
 	}
 	if in.Chunked && (len(in.Chunks) > 0 || in.ChunkStyle != 0) {
 		framing = fmt.Sprintf("chunked-varied-style%d", in.ChunkStyle)
+	}
+	if in.Expect {
+		framing += "-expect"
 	}
 	sig := fmt.Sprintf("site:%s:%s:%s", kind, framing, ow)
 	// precise classes for the deviations once found on real sites (F-C17-4/5/6): the body is cut
